@@ -238,8 +238,10 @@ pub fn run_case(case: &Case, prefix: &Built) -> (Vec<(String, String)>, Info) {
                     }
                     (None, _) => ([salt as u8; 32], tip_id + 1, vec![1, 2, 3]),
                 };
+                let mut honest_copy: Option<Block> = None;
                 if let Some(b) = &valid_block {
                     if res_str(&block_on(builder.add(b.clone()))) == "added_lc" {
+                        honest_copy = Some(b.clone());
                         let _ = twin.n.net_event(NetworkEvent::IncomingNetworkMessage { peer_index: HONEST, buffer: Message::BlockHeaderHash(b.hash, b.id).serialize() });
                         twin.n.take_fetches();
                         let _ = twin.n.net_event(NetworkEvent::BlockFetched { block_hash: b.hash, block_id: b.id, peer_index: HONEST, buffer: b.serialize_for_net(BlockType::Full) });
@@ -258,6 +260,14 @@ pub fn run_case(case: &Case, prefix: &Built) -> (Vec<(String, String)>, Info) {
                         format!("C11|allocation_out_of_proportion|via={via}"),
                         format!("step {step}: handling a fetched block of {buf_len} bytes allocated {peak} bytes at peak"),
                     ));
+                }
+                if let Some(b) = honest_copy {
+                    // the twin got this valid block from the honest peer; so does the node (it may have
+                    // ignored the hostile sender, e.g. because that connection was superseded)
+                    call!(n, format!("step {step}"), "honest_copy_of_valid_block", false, n.net_event(NetworkEvent::IncomingNetworkMessage { peer_index: HONEST, buffer: Message::BlockHeaderHash(b.hash, b.id).serialize() }));
+                    n.take_fetches();
+                    call!(n, format!("step {step}"), "honest_copy_of_valid_block", false, n.net_event(NetworkEvent::BlockFetched { block_hash: b.hash, block_id: b.id, peer_index: HONEST, buffer: b.serialize_for_net(BlockType::Full) }));
+                    pump_all!(n, "honest_copy_of_valid_block", false);
                 }
             }
             Ev::HostileTx { edit } => {
